@@ -16,6 +16,7 @@ const (
 	itDef
 	itAssume
 	itOblig
+	itDefRec
 )
 
 type Item struct {
@@ -25,6 +26,7 @@ type Item struct {
 	ASort []Sort // argument sorts for uninterpreted functions
 	Term  *Term  // definition body / assumption / goal
 	Ob    *Obligation
+	Params []*Term // itDefRec: formal parameters
 }
 
 type Obligation struct {
@@ -133,6 +135,11 @@ func (vc *VC) DeclareUF(name string, args []Sort, res Sort) {
 	vc.Items = append(vc.Items, Item{Kind: itDecl, Name: name, Sort: res, ASort: args})
 }
 
+// DefineRec introduces a recursive integer function (define-fun-rec).
+func (vc *VC) DefineRec(name string, params []*Term, body *Term) {
+	vc.Items = append(vc.Items, Item{Kind: itDefRec, Name: name, Sort: SInt, Term: body, Params: params})
+}
+
 func (vc *VC) Assume(t *Term) {
 	if t.IsTrue() {
 		return
@@ -214,6 +221,11 @@ func (ob *Obligation) ScriptOpt(opt scriptOpt) string {
 			if need[it.Name] {
 				keep[i] = true
 			}
+		case itDefRec:
+			if need[it.Name] {
+				keep[i] = true
+				it.Term.syms(need)
+			}
 		}
 	}
 	for i := 0; i < ob.Index; i++ {
@@ -234,6 +246,12 @@ func (ob *Obligation) ScriptOpt(opt scriptOpt) string {
 			}
 		case itDef:
 			fmt.Fprintf(&sb, "(define-fun %s () %s %s)\n", it.Name, it.Sort, it.Term)
+		case itDefRec:
+			var ps []string
+			for _, p := range it.Params {
+				ps = append(ps, fmt.Sprintf("(%s Int)", p.Name))
+			}
+			fmt.Fprintf(&sb, "(define-fun-rec %s (%s) Int %s)\n", it.Name, strings.Join(ps, " "), it.Term)
 		case itAssume:
 			if opt.DropQuant && hasQuant(it.Term) {
 				continue
@@ -250,7 +268,11 @@ func (ob *Obligation) ScriptOpt(opt scriptOpt) string {
 			case LCap:
 				fmt.Fprintf(&sb, "(assert (<= %s 8192))\n", p.L[i])
 			case LOff:
-				fmt.Fprintf(&sb, "(assert (<= %s 64))\n", p.L[i])
+				if i+1 < len(lay.Leaves) && lay.Leaves[i+1].K == LLen && !lay.Leaves[i-1].Str {
+					fmt.Fprintf(&sb, "(assert (<= %s 64))\n", p.L[i])
+				} else if p.L[i].IntConst() == nil {
+					fmt.Fprintf(&sb, "(assert (= %s 0))\n", p.L[i]) // no interior pointers / string offsets
+				}
 			}
 		}
 	}
